@@ -51,6 +51,9 @@ struct StoreState {
     put_returns: usize,
     shard_bytes_ok: usize,
     validation_errors: Vec<String>,
+    /// (max chunks, max bytes, max chunk length) of the configuration, and what a put violated of them
+    limits: (usize, usize, usize),
+    limit_errors: Vec<String>,
     /// global dedup service: every chunk listed in a CAS section of a successfully uploaded shard -> that shard
     chunk_to_shard: BTreeMap<RH, RH>,
     shard_bytes: BTreeMap<RH, Vec<u8>>,
@@ -120,6 +123,16 @@ impl UploadClient for Store {
         let mut g = self.st.lock().unwrap();
         if let Some(b) = bad {
             g.validation_errors.push(format!("put #{id}: {b}"));
+        }
+        // C15 at the injected client: every xorb handed over is non-empty and within the configured limits
+        let (mc, mb, ml) = g.limits;
+        let nch = chunk_and_boundaries.len();
+        let longest = chunks.iter().map(|c| c.len()).max().unwrap_or(0);
+        if data.is_empty() || nch == 0 {
+            g.limit_errors.push(format!("put #{id}: an empty xorb was handed to the store"));
+        }
+        if nch > mc || data.len() > mb || longest > ml {
+            g.limit_errors.push(format!("put #{id}: {nch} chunks / {} bytes / longest chunk {longest} exceed the limits {mc} chunks / {mb} bytes / {ml} per chunk", data.len()));
         }
         g.xorbs.insert(rm::from_mh(hash), chunks);
         g.put_returns += data.len();
@@ -236,6 +249,10 @@ struct ExecObs {
     panic: Option<String>,
     reconstruct_errors: Vec<String>,
     validation_errors: Vec<String>,
+    limit_errors: Vec<String>,
+    /// (file label, bytes fed, pointer hash, pointer size) of every file whose finish() returned Ok
+    pointers: Vec<(String, usize, String, u64)>,
+    pointer_errors: Vec<String>,
     replay_diverged: bool,
     /// store counters when the explored (last) session began
     base_put_returns: usize,
@@ -261,9 +278,10 @@ fn driver_ops(atoms: &Atoms, spec: &SessionSpec) -> Vec<DriverOp> {
         next[i] += 1;
         if k < pieces[i].len() {
             ops.push(DriverOp::Add(i, pieces[i][k].clone()));
-        } else {
+        } else if k == pieces[i].len() {
             ops.push(DriverOp::Finish(i));
         }
+        // an order list may name a file more often than it has operations: the surplus is ignored
     }
     ops.push(DriverOp::Finalize);
     ops
@@ -271,11 +289,11 @@ fn driver_ops(atoms: &Atoms, spec: &SessionSpec) -> Vec<DriverOp> {
 
 /// Runs the scenario's sessions (all but the last fault-free and auto-released), exploring the
 /// last session with the choice `prefix`; beyond the prefix the default option (0) is taken.
-fn execute(atoms: &Atoms, scn: &Scenario, cas: &std::path::Path, prefix: &[usize], budget: usize) -> ExecObs {
+fn execute(atoms: &Atoms, cfg: &Cfg, scn: &Scenario, cas: &std::path::Path, prefix: &[usize], budget: usize) -> ExecObs {
     let rt = tokio::runtime::Builder::new_current_thread().enable_all().build().expect("runtime");
     let pool = Arc::new(ThreadPool::from_external(rt.handle().clone()));
     let store = Store {
-        st: Arc::new(Mutex::new(StoreState::default())),
+        st: Arc::new(Mutex::new(StoreState { limits: (cfg.eff_max_chunks(), cfg.eff_max_bytes(), 2 * cfg.target), ..Default::default() })),
         events: Arc::new(AtomicU64::new(0)),
     };
     let mut obs = ExecObs::default();
@@ -314,6 +332,21 @@ fn execute(atoms: &Atoms, scn: &Scenario, cas: &std::path::Path, prefix: &[usize
     obs.put_returns = g.put_returns - obs.base_put_returns;
     obs.shard_bytes_ok = g.shard_bytes_ok - obs.base_shard_bytes;
     obs.validation_errors = g.validation_errors.clone();
+    obs.limit_errors = g.limit_errors.clone();
+    // pointers of the explored session against the reference (chunker o merkle o salt; size = bytes fed)
+    {
+        let last = scn.sessions.last().unwrap();
+        for (label, fed, hash, size) in &obs.pointers {
+            let f = last.files.iter().find(|f| &f.label() == label);
+            if let Some(f) = f {
+                let bytes = f.bytes(atoms);
+                let want = rm::hex(&rm::file_hash(&rm::chunk_list(&bytes, atoms.target), &[0u8; 32]));
+                if *hash != want || *size != bytes.len() as u64 || *fed != bytes.len() {
+                    obs.pointer_errors.push(format!("file {label}: pointer ({hash}, {size}) but the content of {} bytes ({fed} fed) has the reference pointer ({want}, {})", bytes.len(), bytes.len()));
+                }
+            }
+        }
+    }
     obs.global_dedup_answers = g.global_dedup_answers;
     // reconstruction from the store when everything reported success
     if obs.all_api_ok && obs.finalized {
@@ -408,6 +441,8 @@ async fn run_session(atoms: &Atoms, spec: &SessionSpec, cas: &std::path::Path, p
         }
     }
     let mut cleaners: Vec<Option<_>> = (0..nfiles).map(|_| None).collect();
+    let pointer_slot: Arc<Mutex<Vec<(String, usize, String, u64)>>> = Arc::new(Mutex::new(vec![]));
+    let mut fed_bytes: Vec<usize> = vec![0; nfiles];
     let persist = persist_mode && explore;
     let mut dead: Vec<bool> = vec![false; nfiles];
     let mut stop = false;
@@ -529,6 +564,7 @@ async fn run_session(atoms: &Atoms, spec: &SessionSpec, cas: &std::path::Path, p
                 let ev = store.clone();
                 match op {
                     DriverOp::Add(i, data) => {
+                        fed_bytes[i] += data.len();
                         if cleaners[i].is_none() {
                             cleaners[i] = Some(Arc::new(tokio::sync::Mutex::new(Some(session_opt.as_ref().unwrap().start_clean(format!("file{i}"))))));
                         }
@@ -546,9 +582,17 @@ async fn run_session(atoms: &Atoms, spec: &SessionSpec, cas: &std::path::Path, p
                             cleaners[i] = Some(Arc::new(tokio::sync::Mutex::new(Some(session_opt.as_ref().unwrap().start_clean(format!("file{i}"))))));
                         }
                         let c = cleaners[i].take().unwrap();
+                        let ptrs = pointer_slot.clone();
+                        let (label, fed) = (spec.files[i].label(), fed_bytes[i]);
                         tokio::task::spawn_local(async move {
                             let cl = c.lock().await.take().unwrap();
-                            let r = cl.finish().await.map(|_| ()).map_err(|e| format!("{e:?}"));
+                            let r = match cl.finish().await {
+                                Ok((pf, _)) => {
+                                    ptrs.lock().unwrap().push((label, fed, pf.hash_string().clone(), pf.filesize()));
+                                    Ok(())
+                                },
+                                Err(e) => Err(format!("{e:?}")),
+                            };
                             *done3.lock().unwrap() = Some(r);
                             ev.bump();
                         });
@@ -597,6 +641,9 @@ async fn run_session(atoms: &Atoms, spec: &SessionSpec, cas: &std::path::Path, p
     } else {
         FINAL_METRICS.with(|f| f.borrow_mut().take());
     }
+    if explore {
+        obs.pointers = pointer_slot.lock().unwrap().clone();
+    }
     // drop whatever is left (cleaners hold the session)
     drop(cleaners);
     drop(session_opt);
@@ -613,6 +660,14 @@ fn check(obs: &ExecObs) -> Vec<(String, String)> {
     if let Some(p) = &obs.panic {
         let loc = p.rsplit(" @ ").next().unwrap_or("").replace("/repo/", "");
         v.push((format!("C16/panic:{loc}"), p.clone()));
+        if obs.failures_injected == 0 {
+            // a session that panics although no store call failed cannot round-trip its files (C01); a panic
+            // raised by one of the limit assertions is C15's symptom
+            v.push((format!("C01/panic:{loc}"), p.clone()));
+            if p.contains("MAX_XORB") || loc.contains("raw_xorb_data") || loc.contains("data_aggregator") {
+                v.push((format!("C15/panic:limit-assert@{loc}"), p.clone()));
+            }
+        }
         return v;
     }
     if let Some(h) = &obs.hang {
@@ -635,10 +690,22 @@ fn check(obs: &ExecObs) -> Vec<(String, String)> {
     if !failed_calls.is_empty() && obs.all_api_ok && obs.finalized {
         v.push(("C16/failure-swallowed".into(), format!("{failed_calls:?} failed, yet every add_data/finish/finalize call returned Ok")));
     }
+    // C15 at the injected client (every execution): xorbs handed over are non-empty and within the limits
+    for e in &obs.limit_errors {
+        v.push(("C15/put-exceeds-limit".into(), e.clone()));
+    }
+    // C03 under await-point interleavings of two cleaners (every file whose finish() returned Ok)
+    for e in &obs.pointer_errors {
+        v.push(("C03/pointer-differs-from-reference-under-interleaving".into(), e.clone()));
+    }
     // (3) success means reconstructible
     if obs.all_api_ok && obs.finalized {
         for e in &obs.reconstruct_errors {
             v.push(("C16/success-but-not-reconstructible".into(), e.clone()));
+            if obs.failures_injected == 0 {
+                // no store call failed: this is the round-trip property itself, under the explored interleaving
+                v.push(("C01/session-not-reconstructible-under-interleaving".into(), e.clone()));
+            }
         }
         // the store's own validation (receiver side)
         for e in &obs.validation_errors {
@@ -775,7 +842,7 @@ fn explore_scenario(atoms: &Atoms, cfg: &Cfg, scn: &Scenario, budget: usize, scr
         let cas = scratch.join(format!("c{counter}"));
         let _ = std::fs::remove_dir_all(&cas);
         std::fs::create_dir_all(&cas).unwrap();
-        let obs = execute(atoms, scn, &cas, &prefix, budget);
+        let obs = execute(atoms, cfg, scn, &cas, &prefix, budget);
         n += 1;
         out.count("executions", 1);
         out.count("decisions", obs.trace.len() as u64);
@@ -790,7 +857,7 @@ fn explore_scenario(atoms: &Atoms, cfg: &Cfg, scn: &Scenario, budget: usize, scr
             let cas2 = scratch.join(format!("c{counter}r"));
             std::fs::create_dir_all(&cas2).unwrap();
             let choices: Vec<usize> = obs.trace.iter().map(|d| d.chosen).collect();
-            let o2 = execute(atoms, scn, &cas2, &choices, budget);
+            let o2 = execute(atoms, cfg, scn, &cas2, &choices, budget);
             if outcome_string(&o2) != outcome_string(&obs) {
                 out.count("machinery:nondeterministic_replay", 1);
                 out.notes.push(format!("nondeterministic replay in {}: '{}' vs '{}'", scn.label(), outcome_string(&obs), outcome_string(&o2)));
@@ -872,7 +939,7 @@ fn worker(args: &Args, spec: &str) {
     if let Some(ch) = spec["choices"].as_array() {
         let choices: Vec<usize> = ch.iter().map(|x| x.as_u64().unwrap() as usize).collect();
         let cas = scratch.sub("replay");
-        let obs = execute(&atoms, &scn, &cas, &choices, budget);
+        let obs = execute(&atoms, &cfg, &scn, &cas, &choices, budget);
         eprintln!("outcome: {}", outcome_string(&obs));
         out.count("executions", 1);
         for (sig, w) in check(&obs) {
@@ -890,15 +957,18 @@ fn main() {
         worker(&args, w);
         return;
     }
-    if args.prop != "C16" && args.prop != "C14x" {
-        machinery_error("lab_inject serves C16 (and, as C14x, the exact upload-byte equations of C14)");
+    const SIDE: [&str; 4] = ["C14x", "C01x", "C03x", "C15x"];
+    if args.prop != "C16" && !SIDE.contains(&args.prop.as_str()) {
+        machinery_error("lab_inject serves C16 and, as C14x / C01x / C03x / C15x, the clauses of C14 / C01 / C03 / C15 that need the injected client or interleaved cleaners");
     }
     let prop = args.prop.clone();
+    // the fault-free interleaving runs (C01x C03x C15x): scenarios with two or more files, no injected failure
+    let fault_free = matches!(prop.as_str(), "C01x" | "C03x" | "C15x");
     // C14x = the exact upload-byte equations of C14: violations are reported as property C14,
     // the evidence goes to evidence/C14x.json (evidence/C14.json belongs to the session lab)
-    let mut run = Run::new(&args, if prop == "C14x" { "C14" } else { &prop }, "fault_enumeration");
-    if prop == "C14x" {
-        run.evidence_name = Some("C14x".into());
+    let mut run = Run::new(&args, if SIDE.contains(&prop.as_str()) { &prop[..3] } else { &prop }, if fault_free { "exploration" } else { "fault_enumeration" });
+    if SIDE.contains(&prop.as_str()) {
+        run.evidence_name = Some(prop.clone());
     }
     let scratch = Scratch::new("injp");
     let mut jobs = vec![];
@@ -910,7 +980,10 @@ fn main() {
     } else {
         for cfg in configs(args.tier) {
             for scn in scenarios(args.tier) {
-                for budget in args.tier.pick(vec![0usize, 1], vec![0, 1, 2, 99]) {
+                if fault_free && (scn.sessions.last().map(|s| s.files.len()).unwrap_or(0) < 2 || scn.family == "inject-persist" || (args.tier == Tier::Quick && cfg.name != "I2-uploads2")) {
+                    continue;
+                }
+                for budget in if fault_free { vec![0usize] } else { args.tier.pick(vec![0usize, 1], vec![0, 1, 2, 99]) } {
                     let spec = json!({"cfg": cfg.to_json(), "scenario": scn.to_json(), "budget": budget, "cap": args.tier.pick(12000, 40000)});
                     jobs.push(Job { name: format!("{}/{}/b{budget}", cfg.name, scn.label()), env: cfg.env(), args: vec!["--worker".into(), spec.to_string()] });
                 }
@@ -929,7 +1002,7 @@ fn main() {
     if all.get("machinery:replay_divergence") + all.get("machinery:nondeterministic_replay") > 0 {
         run.machinery("nondeterminism in the injected driver (see notes)".to_string());
     }
-    let mine = if prop == "C14x" { "C14/".to_string() } else { "C16/".to_string() };
+    let mine = format!("{}/", &prop[..3]);
     all.violations.retain(|v| v.signature.starts_with(&mine));
     let evaluations = all.get("executions");
     let capped = all.get("scenarios_capped");
